@@ -49,6 +49,9 @@ def cases_for(tier: str) -> list[dict]:
         out.append(case("regular", eager=e))
         for s in ("http", "https"):
             out.append(case("upstream", scheme=s, eager=e))
+    # _setup_explicit_http_proxy's UDP branch (HTTP/3 proxy): no shipped mode listens on UDP, prediction only
+    out.append(case("regular", tr="udp"))
+    out.append(case("upstream", scheme="https", tr="udp"))
     for s, tr in REVERSE:
         for e in B:
             for k in B:
@@ -123,7 +126,7 @@ def quic_long(version: int = 1, n: int = 60) -> bytes:
 CANON = {
     "tls": client_hello("example.test"),
     "http": b"GET /x HTTP/1.1\r\nHost: example.test\r\n\r\n",
-    "bin": bytes([0, 1, 2, 3, 250, 251, 252, 13, 10, 0, 7, 32, 9]),
+    "bin": bytes([0, 1, 2, 32, 250, 251, 252, 32, 0, 7, 13, 10]),  # a space in the "first line": only the prefix is not a verb
     "short": b"GE",
     "ssh": b"SSH-2.0-OpenSSH_9.0 x\r\n",
     "nospace": b"HELLO\r\n",
@@ -370,6 +373,8 @@ def rand_bytes_for(rng: random.Random, cls: str) -> bytes:
     if cls == "bin":
         b = bytes(rng.randrange(256) for _ in range(rng.randint(3, 40)))
         first = rng.choice([0, 1, 2, 5, 0x80, 0xFF, 0x17, 0x30])  # never a letter, never a handshake record
+        if rng.random() < 0.5:  # a space before any newline: only the non-alphabetic prefix tells it from HTTP
+            b = b[:2].replace(b"\n", b"\x00") + b" " + b[2:]
         return bytes([first]) + b
     if cls == "short":
         return rng.choice([b"G", b"GE", b"\x16\x03", b"ab"])
@@ -440,13 +445,33 @@ def random_scenario(rng: random.Random) -> dict:
             ignore = [r"nomatch\.invalid"]
         if rng.random() < 0.2:
             allow = [".+"]
+    upstream = list(UPSTREAM)
     if mode == "reverse":
-        spec = f"reverse:{c['scheme']}://{host}:{port}"
+        shost = host
+        if rng.random() < 0.1 and c["hosts"] == "none":
+            host, shost = "::1", "[::1]"  # IPv6 literal target
+        defaults = {"http": (80, "web"), "https": (443, "web"), "dns": (53, "dns")}
+        if c["scheme"] in defaults and not c["wgdns"] and rng.random() < 0.25:
+            port, c["port"] = defaults[c["scheme"]]  # the scheme's default port
+            spec = f"reverse:{c['scheme']}://{shost}"
+        else:
+            spec = f"reverse:{c['scheme']}://{shost}:{port}"
+    elif mode == "upstream":
+        if rng.random() < 0.3:
+            upstream = [rng.choice(["up.test", "10.3.3.3"]), 443 if c["scheme"] == "https" else 80]
+            spec = f"upstream:{c['scheme']}://{upstream[0]}"
+        else:
+            upstream = [rng.choice(["up.test", "proxy.example"]), rng.choice([3128, 8080, 443])]
+            spec = f"upstream:{c['scheme']}://{upstream[0]}:{upstream[1]}"
+    elif mode == "wireguard":
+        # local / tun modes get the same top layer; only WireGuardMode has the DNS special case
+        spec = "wireguard" if c["wgdns"] else rng.choice(["wireguard", "wireguard:/tmp/xD-wg.conf", "local", "local:curl",
+                                                            "tun", "wireguard@51821"])
     else:
-        spec = {"regular": "regular", "upstream": f"upstream:{c['scheme']}://{UPSTREAM[0]}:{UPSTREAM[1]}",
-                "transparent": "transparent", "wireguard": "wireguard", "socks5": "socks5",
+        spec = {"regular": rng.choice(["regular", "regular@8081"]), "transparent": "transparent",
+                "socks5": rng.choice(["socks5", "socks5@1081"]),
                 "inner": "transparent" if c["tr"] == "tcp" else "wireguard"}[mode]
-    conc = dict(spec=spec, host=host, port=port, patterns=HOST_PATTERNS, ignore=ignore, allow=allow,
+    conc = dict(spec=spec, host=host, port=port, patterns=HOST_PATTERNS, ignore=ignore, allow=allow, upstream=upstream,
                 sni=rng.choice(["rawhost.test", "x.RAWHOST.test"]) if c["hosts"] == "sni" else rng.choice(["inner.test", "rawhost.tes"]))
     classes = TCP_CLS if c["tr"] == "tcp" else UDP_CLS
     steps: list = [["start"]]
@@ -510,7 +535,8 @@ class Check(core.PropertyCheck):
         "(ignore_hosts / allow_hosts with partial data) are C19's subject; here ignore_hosts is only all-or-nothing",
         "the decision inside an intercepted TLS / DTLS / QUIC session is driven on a context prepared by the harness "
         "(layers constructed, client.alpn / sni / tls_version set) instead of a real handshake",
-        "regular, upstream, transparent and socks5 clients are TCP (their mode specs listen on TCP only)",
+        "transparent and socks5 clients are TCP (their mode specs listen on TCP only); UDP clients of regular / upstream "
+        "(no shipped mode) appear in two cases whose stack is a prediction only",
         "SOCKS5 handshakes are well-formed (parsing is C21's subject); no events are delivered after the client "
         "connection was closed by the proxy",
     )
@@ -555,7 +581,11 @@ class Check(core.PropertyCheck):
             if key in seen:
                 continue
             seen.add(key)
-            yield core.Scenario({"case": c, "steps": steps}, predicted=core.predicted_events(b), source="model")
+            data = {"case": c, "steps": steps}
+            if c["mode"] == "wireguard" and not c["wgdns"] and ctx.rng.random() < 0.4:
+                # LocalMode / TunMode instances make the same top layer (no model of their own)
+                data["conc"] = {**concretise(c), "spec": ctx.rng.choice(["local", "tun", "local:curl"])}
+            yield core.Scenario(data, predicted=core.predicted_events(b), source="model")
         rng = random.Random(ctx.seed + 404)
         for _ in range(1500 if ctx.quick else 30000):
             yield core.Scenario(random_scenario(rng), source="random")
